@@ -20,7 +20,7 @@ def run(ctx):
     ctx.not_claimed(_pipe.OUTSIDE)
     C = []
     ks = [5, 28, 30] if q else list(range(len(P.HOLES)))
-    C += PC.text_holes(ctx, own, sorted(set(ks)), vis=(4,) if q else (0, 4, 8), timeout=900 if q else 2400)
+    C += PC.text_holes(ctx, own, sorted(set(ks)), vis=(4,), timeout=900 if q else 2400)
     C += PC.spell_holes(ctx, own, [0, 3] if q else range(len(P.SPELL)))
     C += PC.label_holes(ctx, own, [9] + _pipe.pick(ctx, 1, len(P.SKELS)) if q else range(len(P.SKELS)),
                         positions=None, vis=(4,) if q else (0, 4, 8))
